@@ -340,6 +340,10 @@ impl<'m> MCTPSMBusContext<'m> {
     pub fn get_length(&self, packet: &[u8]) -> Result<usize, (MessageType, DecodeError)> {
         // The third bye contains the length, let's just get the first three
         // bytes
+        if packet.len() < 3 {
+            return Err((MessageType::Invalid, DecodeError::Unknown));
+        }
+
         let mut smbus_header_buf: [u8; 4] = [0; 4];
         smbus_header_buf[0..3].copy_from_slice(&packet[0..3]);
         let smbus_header = MCTPSMBusHeader::new_from_buf(smbus_header_buf);
